@@ -31,6 +31,10 @@
 (* bindings inp -> gen, fix -> src) and consumers that reference the       *)
 (* placeholders with :ref, :output, :loopref and :loopoutput.              *)
 (*                                                                         *)
+(* Between unrollings the controller inspects the workflow (action Inspect:  *)
+(* dependency analysis, status report, placeholder state); inspections are *)
+(* read-only, so every clause of C05 holds whoever looked at the workflow. *)
+(*                                                                         *)
 (* An iteration number is a natural number.  The implementation embeds it  *)
 (* in the component name as a decimal numeral (`10#c`); LexLess below is   *)
 (* the order of those numerals as strings, kept in the spec as a named     *)
@@ -82,8 +86,10 @@ VARIABLES sh,      \* the document shape (constant along a behaviour)
           wire,    \* [inst -> set of resolved references [stage, iter, prod, rep, meth]]
           latest,  \* [loop -> [role -> iteration of the instance a :ref/:output from outside resolves to]]
           order,   \* [loop -> [role -> sequence of iterations an aggregate reference lists]]
-          cond     \* [loop -> iteration whose condition producer decides whether to loop again]
-vars == <<sh, k, inst, wire, latest, order, cond>>
+          cond,    \* [loop -> iteration whose condition producer decides whether to loop again]
+          insp     \* kinds of inspection the controller performed since the newest unrolling (a set)
+vars == <<sh, k, inst, wire, latest, order, cond, insp>>
+unrolled == <<sh, k, inst, wire, latest, order, cond>>   \* the workflow itself
 
 Loops(s)   == IF s.twin THEN {1, 2} ELSE {1}
 Roles(s)   == IF s.aux THEN {"W", "A"} ELSE {"W"}
@@ -118,6 +124,7 @@ Init == /\ sh \in Shapes
         /\ latest = [d \in Loops(sh) |-> [r \in Roles(sh) |-> 0]]
         /\ order = [d \in Loops(sh) |-> [r \in Roles(sh) |-> <<0>>]]
         /\ cond = [d \in Loops(sh) |-> 0]
+        /\ insp = {}
 
 (* instantiate_dowhile_next_iteration(document of loop d, k[d] + 1): the new iteration takes its     *)
 (* loop-carried input from what is the newest iteration *now*; nothing else changes.                  *)
@@ -132,9 +139,22 @@ Iterate(d) ==
            /\ order' = [order EXCEPT ![d] = [r \in Roles(sh) |-> Append(order[d][r], i)]]
            /\ cond' = [cond EXCEPT ![d] = i]
            /\ k' = [k EXCEPT ![d] = i]
+    /\ insp' = {}
     /\ UNCHANGED sh
 
-Next == \E d \in {1, 2} : Iterate(d)        \* constant bounds: TLC then reports coverage per action
+(* The runtime looks at the unrolled workflow all the time: Controller.initialise ("init"), the dependency     *)
+(* analysis / status report generate_status_report_for_nodes ("report", run by initialise and after every      *)
+(* finishedCheck), _comp_get_active_predecessors of a placeholder ("preds", run by _schedule) and               *)
+(* get_node_state / get_placeholder_state ("state").  C05 speaks about the workflow after unrolling whoever    *)
+(* looks at it: an inspection is read-only.  Inspections happen in any order, any number of them, between any  *)
+(* two unrollings (`insp` only records which kinds have happened, so that the driver performs them).           *)
+Kinds == {"init", "report", "preds", "state"}
+Inspect(kind) == /\ kind \notin insp
+                 /\ insp' = insp \cup {kind}
+                 /\ UNCHANGED unrolled
+
+Next == \/ \E d \in {1, 2} : Iterate(d)        \* constant bounds: TLC then reports coverage per action
+        \/ \E kind \in Kinds : Inspect(kind)
 Spec == Init /\ [][Next]_vars
 
 ---------------------------------------------------------------------------
@@ -209,6 +229,8 @@ LexAgreesWithNumeric == \A d \in Loops(sh) : LexMax(0 .. k[d]) = k[d]
 ---------------------------------------------------------------------------
 (* Emission of every reachable state for the conformance driver (an INVARIANT that prints) *)
 InstJson == {[loop |-> x.loop, iter |-> x.iter, role |-> x.role, rep |-> x.rep, refs |-> wire[x]] : x \in inst}
-EmitState == Emit => PrintT(ToJson([sh |-> sh, k |-> k, inst |-> InstJson, latest |-> latest,
+InspectReadOnly == [][(\E kind \in Kinds : Inspect(kind)) => UNCHANGED unrolled]_vars
+
+EmitState == (Emit /\ insp = {}) => PrintT(ToJson([sh |-> sh, k |-> k, inst |-> InstJson, latest |-> latest,
                                      order |-> order, cond |-> cond]))
 =============================================================================
